@@ -304,6 +304,26 @@ def run(prop, tier, seed):
             extra_mism += len(bm)
             if bm and not bb and not bad:
                 run_.violation("no-input", "correspondence L2 whole-program runs (files of arbitrary bytes) broken on %d scenario(s)" % len(bm), dict(bm[0][2], broken="correspondence L2"))
+            # a read of the target that fails part way (a file larger than a stdio buffer, EIO on every read of the run in turn): the
+            # run stops (status 2) or its output passes the same replay - what was read is not "the file" when the reading failed
+            import l2, faults, concurrent.futures, emit as _emit, gen as _gen
+            a_ = [("line %04d %s" % (i_, "\xff" * 3 + "x" * 17), "L") for i_ in range(420)]
+            ops_ = [(" ", l_) for l_ in a_]
+            for at_ in (400, 20):
+                ops_[at_] = ("-", a_[at_]); ops_.insert(at_ + 1, ("+", ("changed %d" % at_, "L")))
+            hs_ = _gen.hunks_from_ops(ops_, 2)
+            big_ = dict(tree={"f": ("R", 0o644, _emit.file_bytes(a_)), "p.diff": ("R", 0o644, _emit.emit_unified("a/f", "b/f", hs_))}, opts={"p": 1, "i": "p.diff"}, umask=0o022, secs=[], hs=hs_, target=a_)
+            exe_ = build_impl("plain") + "/sb_patch"
+            base_ = l2.run_impl(exe_, big_, strace="read,openat", timeout=30)
+            rj_ = [k_ for n_, k_, l_ in faults.relevant_calls(base_.get("trace", []), ["read"])]
+            with concurrent.futures.ThreadPoolExecutor(max_workers=12) as ex_:
+                rr_ = list(ex_.map(lambda k_: l2.run_impl(exe_, big_, strace="read,openat", inject="read:error=EIO:when=%d" % k_, timeout=30), rj_))
+            for k_, r_ in zip(rj_, rr_):
+                run_.count("C02 read fault %d" % k_, True, "read fault -> exit %d" % r_["exit"])
+                d_ = judge_bytes(big_, r_) if r_["exit"] != 2 else None
+                if d_:
+                    run_.violation("concrete", "read #%d of the run fails with EIO, exit status %d: %s" % (k_, r_["exit"], d_),
+                                   dict(scenario=l2common.describe(big_), inject="read:error=EIO:when=%d" % k_, exit=r_["exit"], stdout=r_["stdout"].decode("latin-1")[-300:]))
         except CheckError as e:
             run_.violation("no-input", "build failed: %s" % e, dict(broken="build", detail=str(e)))
     rc, ri, rm, rmism, rbad = applyc.run_family_plain(run_, applyc.family_reapply(rng, na), "reapply")
